@@ -130,6 +130,9 @@ def run_kernel(ix, qualname, args=None, consts=None, fi=None):
 
 
 def tonum(v):
+    from .kernelir import MaskedView
+    if isinstance(v, MaskedView):
+        v = v.base
     if isinstance(v, IndexSet):
         v = v.b
     if isinstance(v, BExpr):
